@@ -22,7 +22,7 @@ func c19(c *h.Ctx) {
 	runWorkers(c, workerOpts{Mode: "deco", Race: true, Shards: 8, Timeout: 15 * time.Minute, Anchors: anchors})
 
 	// formats x outcomes, library level (child per case)
-	outcomes := []string{"success", "fail", "allowed-failure", "skipped", "before-fails", "both-streams", "then-success", "then-fail", "then-skipped", "then-before-fails"}
+	outcomes := []string{"success", "fail", "allowed-failure", "skipped", "before-fails", "both-streams", "long-ansi-lines", "then-success", "then-fail", "then-skipped", "then-before-fails"}
 	formats := []string{"raw", "prefixed", "cockpit"}
 	results := map[string]map[string]string{}
 	type job struct{ f, o string }
